@@ -129,6 +129,19 @@ pub enum Op {
     SetTransferFee { second: bool, bp: u16, max: u64 },
     /// fee-mint pools: let epochs pass (scheduled transfer fees come into force)
     AdvanceEpoch(u8),
+    /// adversarial account choice: the wrapped liquidity / fee-update op names ANOTHER initialized tick array of the same pool for the
+    /// position's lower (which 0) / upper (1) bound, `offset` arrays away, or exchanges the two (2).  Must be refused or harmless.
+    Skewed { which: u8, offset: i8, op: Box<Op> },
+}
+
+impl Op {
+    /// the op whose effect monitors reason about
+    pub fn effective(&self) -> &Op {
+        match self {
+            Op::Skewed { op, .. } => op.effective(),
+            o => o,
+        }
+    }
 }
 
 #[derive(Clone, Debug, Serialize, Deserialize, Hash, PartialEq, Eq)]
@@ -504,6 +517,28 @@ impl Hist {
     /// Execute one op.  A rejected instruction leaves the world unchanged.
     /// On pools with a Token-2022 mint the v1 instruction variants cannot be used; the v2 variant is sent instead.
     pub fn exec(&mut self, op: &Op) -> OpResult {
+        if let Op::Skewed { which, offset, op: inner } = op {
+            if !matches!(inner.effective(), Op::Increase { .. } | Op::Decrease { .. } | Op::UpdateFees { .. } | Op::Reposition { .. }) || *offset == 0 && *which < 2 {
+                return self.exec(inner);
+            }
+            self.w.array_skew = Some((*which % 3, *offset as i32));
+            // the substituted arrays must be genuine initialized arrays of this pool
+            let min_start = array_start(MIN_TICK, self.spec.tick_spacing);
+            for p in self.open_positions() {
+                if self.w.positions[p].pool != self.pool {
+                    continue;
+                }
+                let (sl, su) = self.w.pos_array_starts(p);
+                for s in [sl, su] {
+                    if s >= min_start && s <= MAX_TICK {
+                        self.ensure_array(s.max(MIN_TICK));
+                    }
+                }
+            }
+            let r = self.exec(inner);
+            self.w.array_skew = None;
+            return r;
+        }
         if self.needs_v2() {
             let forced = match op.clone() {
                 Op::Increase { pos, liquidity, variant: IncVariant::V1 } => Some(Op::Increase { pos, liquidity, variant: IncVariant::V2 }),
@@ -675,6 +710,7 @@ impl Hist {
                 }
                 return res;
             }
+            Op::Skewed { op, .. } => return self.exec_inner(op),
             Op::AdvanceEpoch(n) => {
                 let pl = &self.w.pools[self.pool];
                 if pl.mint_a.transfer_fee.is_some() || pl.mint_b.transfer_fee.is_some() {
@@ -934,6 +970,9 @@ pub fn op_strategy(with_rewards: bool) -> BoxedStrategy<Op> {
         1 => (any::<bool>(), prop::sample::select(vec![0u16, 1, 100, 1000, 5000, 10000]), prop_oneof![1 => Just(0u64), 2 => crate::gen::bits_u64(40), 1 => Just(u64::MAX)]).prop_map(|(second, bp, max)| Op::SetTransferFee { second, bp, max }),
         1 => (0u8..=2).prop_map(Op::AdvanceEpoch),
     ];
+    // one liquidity / fee-update op in twelve names a wrong tick array of the same pool
+    let base = (base, 0u8..12, 0u8..3, prop_oneof![Just(-1i8), Just(1i8), Just(2i8), Just(-2i8)])
+        .prop_map(|(op, k, which, offset)| if k == 0 && matches!(op, Op::Increase { .. } | Op::Decrease { .. } | Op::UpdateFees { .. } | Op::Reposition { .. }) { Op::Skewed { which, offset, op: Box::new(op) } } else { op });
     if with_rewards {
         prop_oneof![
             70 => base,
